@@ -428,7 +428,13 @@ class ShimNP:
         res = out if out is not None else self.empty(a.shape)
         w = _np.broadcast_to(_np.asarray(where, dtype=object), a.shape)
         if a.shape == ():
-            return (a[()] / b[()]) if bool(w[()]) else res[()]
+            r0 = res[()] if isinstance(res, _np.ndarray) else res
+            wi = w[()]
+            if isinstance(wi, SB):
+                if isinstance(r0, (float, _np.floating)) and (r0 != r0 or _isinf(r0)):
+                    return (a[()] / b[()]) if bool(wi) else r0
+                return ite(wi.e, _guarded_div(a[()], b[()], wi.e), r0)
+            return (a[()] / b[()]) if bool(wi) else r0
         for idx in _np.ndindex(a.shape):
             wi = w[idx]
             if isinstance(wi, SB):
